@@ -134,6 +134,9 @@ func (e *Engine) freshKeyed(st *State, t types.Type, pre string, k *Term) Value 
 	case *types.Interface:
 		ref := App("tq_uf_ref_"+pre, SRef, k)
 		return e.ifaceFromRef(ref, t)
+	case *types.Signature:
+		// function values: identity and nil-ness are functions of the key
+		return FuncV{Sym: App("tq_uf_ref_"+pre, SRef, k), Nil: App("tq_uf_bool_"+pre+"_nil", SBool, k), Sig: u}
 	}
 	return e.fresh(st, t, pre)
 }
@@ -313,6 +316,9 @@ func (e *Engine) rangeNext(fr *Frame, st *State, x *ssa.Next) []fork {
 	k := e.keyTerm(st, key)
 	st.assume(Implies(ok, Select(mc.Dom, k)))
 	st.assume(Implies(ok, Lt(Num(0), mc.Card)))
+	if m.Nil != nil && !m.Nil.IsFalse() {
+		st.assume(Implies(ok, Not(m.Nil))) // a nil map has no entries to produce
+	}
 	// number of entries produced so far; exact bounds when the map was not modified since
 	// the iteration began (Go produces every entry exactly once in that case)
 	cnt, _ := st.ghost["rangecount"].(*Term)
